@@ -27,3 +27,7 @@ pub open spec fn is_trim_of(r: Seq<char>, s: Seq<char>) -> bool {
 
 pub assume_specification<'a>[ str::trim ](s: &'a str) -> (r: &'a str)
     ensures is_trim_of(r@, s@);
+
+// TRUSTED(T3): char::is_ascii_digit
+pub assume_specification[ char::is_ascii_digit ](c: &char) -> (r: bool)
+    ensures r == ('0' <= *c && *c <= '9');
